@@ -88,25 +88,20 @@ Proof.
 Qed.
 
 (* ------------------------------------------------------------------ lookups without criteria *)
-Lemma filter_m_all {A} (l : list A) : filter_m (all_stages (fun (_ : stage) (_ : A) => Ok true) []) l = Ok l.
-Proof. induction l as [|x l IH]; cbn; [reflexivity|]. cbn in IH. rewrite IH. reflexivity. Qed.
+Lemma filter_true {A} (l : list A) : filter (fun _ => true) l = l.
+Proof. induction l as [|x l IH]; cbn; [reflexivity|]. rewrite IH. reflexivity. Qed.
 
 Lemma ep_lookup_plain st : ep_lookup st [] None = Content (str_links (map get_host_link (get_endpoints st))).
+Proof. unfold ep_lookup, ep_lookup_regs. cbn [query_split fold_left criteria_of flat_map forallb]. rewrite filter_true. reflexivity. Qed.
+Lemma res_pairs_snd regs : map snd (res_pairs regs) = flat_map get_based_links regs.
 Proof.
-  unfold ep_lookup. cbn [query_split fold_left stages_of flat_map].
-  assert (E : forall l : list reg, filter_m (all_stages (ep_stage (final_key []) (final_matcher [])) []) l = Ok l).
-  { induction l as [|x l IH]; cbn; [reflexivity|]. cbn in IH. rewrite IH. reflexivity. }
-  rewrite E. reflexivity.
+  unfold res_pairs. induction regs as [|e l IH]; cbn; [reflexivity|].
+  rewrite map_app, map_map. cbn. rewrite map_id. rewrite IH. reflexivity.
 Qed.
 Lemma res_lookup_plain st :
   res_lookup st [] None = Content (str_links (map strip_anchor (flat_map get_based_links (get_endpoints st)))).
 Proof.
-  unfold res_lookup. cbn [query_split fold_left stages_of flat_map].
-  assert (E : forall l : list (reg * link), filter_m (all_stages (res_stage (final_key []) (final_matcher [])) []) l = Ok l).
-  { induction l as [|x l IH]; cbn; [reflexivity|]. cbn in IH. rewrite IH. reflexivity. }
-  rewrite E. cbn [bind _paginate pop_single_arg dget]. cbn.
-  f_equal. f_equal. f_equal. induction (get_endpoints st) as [|e l IH]; cbn; [reflexivity|].
-  rewrite map_app, map_map. cbn. rewrite map_id. rewrite IH. reflexivity.
+  unfold res_lookup, res_lookup_regs. cbn [query_split fold_left criteria_of flat_map forallb]. rewrite filter_true, res_pairs_snd. reflexivity.
 Qed.
 
 (* the registrations listed by an unfiltered lookup are exactly the objects whose lifetime timer is pending and not due,
@@ -296,30 +291,6 @@ Proof.
       rewrite (obj_In st1 _ x (inv_ids _ _ _ _ _ I1) Hx). auto.
 Qed.
 
-(* ------------------------------------------------------------------ a lookup with one criterion *)
-Lemma filter_m_ext {A} (f g : A -> M bool) l : (forall x, f x = g x) -> filter_m f l = filter_m g l.
-Proof. intros E. induction l as [|x l IH]; cbn; [reflexivity|]. rewrite E, IH. reflexivity. Qed.
-Lemma all_stages_one {A} (f : stage -> A -> M bool) s x : all_stages f [s] x = f s x.
-Proof. cbn. destruct (f s x) as [[|]|e]; reflexivity. Qed.
-
-Definition lookup_error (e : exn) : resp := match e with ValueError | KeyError | TypeError => Err BadRequest | _ => Err e end.
-
-Lemma ep_lookup_single_lemma st s k v : split_eq s = (k, v) -> is_paging k = false ->
-  ep_lookup st [s] None =
-  match filter_m (ep_stage k (make_matcher v, in_strs k ["if"; "rt"]%string) (if String.eqb k "href" then SHref else SGeneric)) (get_endpoints st) with
-  | Ok l => Content (str_links (map get_host_link l))
-  | Raise e => lookup_error e
-  end.
-Proof.
-  intros Es Np. unfold ep_lookup. unfold query_split. cbn [fold_left]. rewrite Es. unfold query_add. cbn [dget app].
-  unfold stages_of, final_key, final_matcher. cbn [flat_map map rev app filter fst snd]. rewrite Np. cbn [negb map app last rev].
-  rewrite (filter_m_ext _ _ _ (all_stages_one _ _)).
-  unfold is_paging, in_strs in Np. cbn [existsb] in Np. rewrite !orb_false_r in Np. apply orb_false_iff in Np. destruct Np as [Np Nc].
-  unfold _paginate, pop_single_arg. cbn [dget].
-  rewrite Np. cbn [bind dget]. rewrite Nc. cbn [bind].
-  destruct (filter_m _ (get_endpoints st)) as [l|e]; cbn [bind]; [reflexivity|]. destruct e; reflexivity.
-Qed.
-
 (* ------------------------------------------------------------------ the statements of Props/C20.v, over reachable states *)
 Lemma invariant_all_histories : forall ops, Inv (run_state empty_rd ops) /\ Settled (run_state empty_rd ops).
 Proof. intros ops. apply run_state_Inv; [apply empty_Inv|apply empty_Settled]. Qed.
@@ -400,57 +371,44 @@ Proof.
   split; [exact H4|]. eapply failed_op_unchanged_lemma; eauto.
 Qed.
 
-(* lookups never raise out of the filter stages (since 5a5d1e7), so they too are answered 2.05, 4.06 or 4.00 only *)
-Lemma any_m_total {A} (f : A -> M bool) l : (forall x, exists b, f x = Ok b) -> exists b, any_m f l = Ok b.
-Proof.
-  intros T. induction l as [|x l IH]; cbn; [eauto|]. destruct (T x) as [b ->]. cbn. destruct b; [eauto|exact IH].
-Qed.
-Lemma base_match_total m x : exists b, base_match m x = Ok b.
-Proof. unfold base_match. destruct m; [destruct x|]; eauto. Qed.
-Lemma matches_total m x : exists b, matches m x = Ok b.
-Proof. unfold matches. destruct (snd m); [|apply base_match_total]. destruct x; [|eauto]. apply any_m_total. intros v. apply base_match_total. Qed.
-Lemma or_m_total a b : (exists x, a = Ok x) -> (exists x, b = Ok x) -> exists x, or_m a b = Ok x.
-Proof. intros [x ->] [y ->]. unfold or_m. cbn. destruct x; eauto. Qed.
-Lemma _link_matches_total l k m : exists b, _link_matches l k m = Ok b.
-Proof. unfold _link_matches. apply any_m_total. intros kv. destruct (String.eqb (fst kv) k); [apply matches_total|eauto]. Qed.
-Lemma params_match_total r k m : exists b, params_match r k m = Ok b.
-Proof. unfold params_match. destruct (dget String.eqb (r_params r) k); [|eauto]. apply any_m_total. intros x. apply matches_total. Qed.
-Lemma ep_stage_total k m s c : exists b, ep_stage k m s c = Ok b.
-Proof.
-  unfold ep_stage. destruct s; apply or_m_total.
-  - apply matches_total. - apply any_m_total. intros r. apply matches_total.
-  - apply params_match_total. - apply any_m_total. intros r. apply _link_matches_total.
-Qed.
-Lemma res_stage_total k m s ec : exists b, res_stage k m s ec = Ok b.
-Proof.
-  unfold res_stage. destruct ec as [e c]. destruct s; apply or_m_total; try apply matches_total.
-  - apply _link_matches_total. - apply params_match_total.
-Qed.
-Lemma all_stages_total {A} (f : stage -> A -> M bool) ss x : (forall s y, exists b, f s y = Ok b) -> exists b, all_stages f ss x = Ok b.
-Proof. intros T. induction ss as [|s ss IH]; cbn; [eauto|]. destruct (T s x) as [b ->]. cbn. destruct b; [exact IH|eauto]. Qed.
-Lemma filter_m_total {A} (f : A -> M bool) l : (forall x, exists b, f x = Ok b) -> exists l', filter_m f l = Ok l'.
-Proof. intros T. induction l as [|x l IH]; cbn; [eauto|]. destruct (T x) as [b ->]. destruct IH as [l' ->]. cbn. eauto. Qed.
-
-Lemma _paginate_err {A} (l : list A) q e : _paginate (Ok l) q = Raise e -> e = BadRequest.
+(* lookups are answered 2.05, 4.06 or 4.00 only: the filters are total boolean functions, pagination converts its errors *)
+Lemma _paginate_err {A} (l : list A) q e : _paginate l q = Raise e -> e = BadRequest.
 Proof.
   unfold _paginate, bind, pop_single_arg, py_int. intros H.
   repeat (break_match; try discriminate; inv_eqs); try (inv H); try reflexivity; try discriminate.
 Qed.
-Lemma lookups_never_5xx st q accept : 
+Lemma lookups_never_5xx st q accept :
   (forall e, ep_lookup st q accept = Err e -> e = BadRequest) /\ (forall e, res_lookup st q accept = Err e -> e = BadRequest).
 Proof.
   split; intros e.
-  - unfold ep_lookup.
-    destruct (filter_m_total (all_stages (ep_stage (final_key (query_split q)) (final_matcher (query_split q))) (stages_of (query_split q))) (get_endpoints st)) as [l ->].
-    { intros x. apply all_stages_total. intros s y. apply ep_stage_total. }
-    destruct (_paginate (Ok l) (query_split q)) as [l'|e'] eqn:EP.
+  - unfold ep_lookup, ep_lookup_regs. destruct (_paginate _ (query_split q)) as [l'|e'] eqn:EP.
     + unfold link_format_to_message. intros H. repeat break_match; discriminate.
     + intros H. inv H. eapply _paginate_err; eauto.
-  - unfold res_lookup.
-    destruct (filter_m_total (all_stages (res_stage (final_key (query_split q)) (final_matcher (query_split q))) (stages_of (query_split q)))
-                (flat_map (fun e0 => map (fun c => (e0, c)) (get_based_links e0)) (get_endpoints st))) as [l ->].
-    { intros x. apply all_stages_total. intros s y. apply res_stage_total. }
-    cbn [bind]. destruct (_paginate (Ok (map snd l)) (query_split q)) as [l'|e'] eqn:EP.
+  - unfold res_lookup, res_lookup_regs. destruct (_paginate _ (query_split q)) as [l'|e'] eqn:EP.
     + unfold link_format_to_message. intros H. repeat break_match; discriminate.
     + intros H. inv H. eapply _paginate_err; eauto.
 Qed.
+
+(* ------------------------------------------------------------------ lookups with any list of criteria (212d645) *)
+Definition live_reg (st : rd) (r : reg) : Prop := exists id due s, In (id, r) (objs st) /\ r_timer r = Some (due, s) /\ now st < due.
+
+Lemma lookup_all_criteria_reachable : forall st qs accept, reachable st ->
+  let q := query_split qs in
+  let eps := filter (fun r => forallb (fun c => ep_keep c r) (criteria_of q)) (get_endpoints st) in
+  let links := filter (fun ec => forallb (fun c => res_keep c ec) (criteria_of q)) (res_pairs (get_endpoints st)) in
+  (forall r, In r eps <-> live_reg st r /\ forall c, In c (criteria_of q) -> ep_keep c r = true) /\
+  (forall e l, In (e, l) links <-> live_reg st e /\ In l (get_based_links e) /\ forall c, In c (criteria_of q) -> res_keep c (e, l) = true) /\
+  ep_lookup st qs accept = match _paginate eps q with Raise e => Err e | Ok l => link_format_to_message accept (map get_host_link l) end /\
+  res_lookup st qs accept = match _paginate (map snd links) q with Raise e => Err e | Ok l => link_format_to_message accept (map strip_anchor l) end.
+Proof.
+  intros st qs accept R q eps links. destruct (reachable_Inv st R) as [I S].
+  destruct (lookup_exact_lemma st I S) as (_ & _ & Live & _ & _).
+  split; [|split; [|split; reflexivity]].
+  - intros r. unfold eps. rewrite filter_In, forallb_forall. rewrite Live. unfold live_reg. tauto.
+  - intros e l. unfold links. rewrite filter_In, forallb_forall. unfold res_pairs. rewrite in_flat_map.
+    split.
+    + intros [(e0 & He0 & Hin) Hc]. apply in_map_iff in Hin. destruct Hin as (l0 & E & Hl0). inv E.
+      split; [apply Live; exact He0|split; [exact Hl0|exact Hc]].
+    + intros (Hl & Hin & Hc). split; [|exact Hc]. exists e. split; [apply Live; exact Hl|]. apply in_map. exact Hin.
+Qed.
+
